@@ -3,8 +3,8 @@
 package weshnet
 
 import (
-	ipfslog "berty.tech/go-ipfs-log"
 	"archive/tar"
+	ipfslog "berty.tech/go-ipfs-log"
 	"bytes"
 	"context"
 	crand "crypto/rand"
@@ -14,6 +14,7 @@ import (
 	"sort"
 	"strings"
 	"testing"
+	"testing/iotest"
 	"time"
 
 	"github.com/ipfs/go-cid"
@@ -51,12 +52,12 @@ type c20GroupSnap struct {
 }
 
 type c20Source struct {
-	files    []c20File
-	keyA     []byte
-	keyProof []byte
-	accPK    []byte
-	groups   []*c20GroupSnap
-	trace    []string
+	files          []c20File
+	keyA           []byte
+	keyProof       []byte
+	accPK          []byte
+	groups         []*c20GroupSnap
+	trace          []string
 	contactGroups  int
 	blockedContact bool
 	forkedLog      bool
@@ -268,7 +269,9 @@ func c20BuildSource(t *testing.T, rt *rapid.T) *c20Source {
 		src.groups = append(src.groups, sn)
 	}
 	svc.lock.RUnlock()
-	sort.Slice(src.groups, func(i, j int) bool { return bytes.Compare(src.groups[i].group.PublicKey, src.groups[j].group.PublicKey) < 0 })
+	sort.Slice(src.groups, func(i, j int) bool {
+		return bytes.Compare(src.groups[i].group.PublicKey, src.groups[j].group.PublicKey) < 0
+	})
 	// parse the archive
 	tr := tar.NewReader(bytes.NewReader(buf.Bytes()))
 	for {
@@ -390,11 +393,14 @@ func c20Tar(files []c20File) []byte {
 }
 
 type c20Target struct {
-	node ipfsutil.CoreAPIMock
-	odb  *WeshOrbitDB
-	ss   secretstore.SecretStore
-	mn   mocknet.Mocknet
-	ds   ds.Batching
+	// how the archive reaches the restore: "" = one in-memory reader; "half" = every Read returns half of what was asked
+	// for; "chunks" = pieces of at most 4096 bytes (what ServiceExportData sends); "onebyte"
+	transport string
+	node      ipfsutil.CoreAPIMock
+	odb       *WeshOrbitDB
+	ss        secretstore.SecretStore
+	mn        mocknet.Mocknet
+	ds        ds.Batching
 }
 
 // withAccount: "" (fresh store) or how the store's account came into existence before the restore
@@ -439,7 +445,16 @@ func (x *c20Target) restore(archive []byte, d time.Duration) (err error, timedOu
 				panicked = p
 			}
 		}()
-		err = RestoreAccountExport(ctx, bytes.NewReader(archive), x.node.API(), x.odb, zap.NewNop())
+		var rd io.Reader = bytes.NewReader(archive)
+		switch x.transport {
+		case "half":
+			rd = iotest.HalfReader(rd)
+		case "onebyte":
+			rd = iotest.OneByteReader(rd)
+		case "chunks":
+			rd = &c20ChunkReader{data: archive, n: 4096}
+		}
+		err = RestoreAccountExport(ctx, rd, x.node.API(), x.odb, zap.NewNop())
 	}()
 	select {
 	case <-done:
@@ -454,7 +469,9 @@ func (x *c20Target) restore(archive []byte, d time.Duration) (err error, timedOu
 }
 
 // compare checks identity, logs, heads and state of the restored node against the source
-func (x *c20Target) compare(t *testing.T, src *c20Source) (string, string) { return x.compareMode(t, src, false) }
+func (x *c20Target) compare(t *testing.T, src *c20Source) (string, string) {
+	return x.compareMode(t, src, false)
+}
 
 // compareMode with subset=true accepts an incomplete restore (an archive that lost files cannot be told from a smaller
 // export) but nothing that was not exported and no altered bytes
@@ -591,13 +608,16 @@ func TestVerif_C20_RoundTrip(t *testing.T) {
 		}
 		tgt := c20NewTarget(t, "")
 		defer tgt.close()
+		// the archive is a stream: however it is cut into reads, it restores the same
+		tgt.transport = rapid.SampledFrom([]string{"", "half", "half", "chunks", "onebyte"}).Draw(rt, "transport")
 		err, timedOut, pan := tgt.restore(c20Tar(src.files), 120*time.Second)
 		if pan != nil {
 			fail("restore-panic", fmt.Sprint(pan))
 		}
 		if err != nil || timedOut {
-			fail("valid-archive-refused", fmt.Sprintf("restoring an untouched export failed: %v (timed out=%v)", err, timedOut))
+			fail("valid-archive-refused", fmt.Sprintf("restoring an untouched export (archive read through %q) failed: %v (timed out=%v)", tgt.transport, err, timedOut))
 		}
+		acct.Label("transport/" + map[bool]string{true: "split-reads", false: "one-reader"}[tgt.transport != ""])
 		if id, msg := tgt.compare(t, src); id != "" {
 			fail(id, msg)
 		}
@@ -839,4 +859,20 @@ func TestVerif_C20_Mutants(t *testing.T) {
 			}, "mutant", "mutant/"+kind, lbl07(rejected, "mutant/rejected"), lbl07(!rejected, "mutant/restored-identically"))
 		}
 	})
+}
+
+// c20ChunkReader hands the archive out in pieces of at most n bytes.
+type c20ChunkReader struct {
+	data []byte
+	n    int
+}
+
+func (c *c20ChunkReader) Read(p []byte) (int, error) {
+	if len(c.data) == 0 {
+		return 0, io.EOF
+	}
+	k := min(len(p), c.n, len(c.data))
+	copy(p, c.data[:k])
+	c.data = c.data[k:]
+	return k, nil
 }
